@@ -572,6 +572,18 @@ func (fc *FuncCtx) specCall(x SCall, env *SpecEnv) Term {
 		return T(fmt.Sprintf("(forall ((r Int)) (! (=> (< r %s) (= (select %s r) (select %s r))) :pattern ((select %s r))))", env.old.next.S, h.S, h0.S, h.S), SBool)
 	case "box":
 		return fc.boxAny(arg(0))
+	case "domof":
+		m := arg(0)
+		if m.Sort.Kind != KMap {
+			return fc.specFail("domof needs a map")
+		}
+		return Select(fc.mapDom(env.st, m.Sort.Key, m.Sort.Elem), m)
+	case "valof":
+		m := arg(0)
+		if m.Sort.Kind != KMap {
+			return fc.specFail("valof needs a map")
+		}
+		return Select(fc.mapVal(env.st, m.Sort.Key, m.Sort.Elem), m)
 	case "fmtverb":
 		v := x.Args[0].(SStr).V
 		return fc.fmtVerb(v[0], arg(1))
@@ -657,6 +669,19 @@ func (fc *FuncCtx) specCall(x SCall, env *SpecEnv) Term {
 			args = append(args, arg(i))
 		}
 		return fc.applySpecFun(sf, args, env)
+	}
+	// datatype selector by its full name, e.g. FType_FUnion_Value(x)
+	if len(x.Args) == 1 {
+		for _, dn := range fc.Sorts.dtOrder {
+			d := fc.Sorts.dts[dn]
+			for _, ct := range d.Ctors {
+				for _, fl := range ct.Fields {
+					if fl.Name == x.Fn {
+						return App(fl.Sort, fl.Name, arg(0))
+					}
+				}
+			}
+		}
 	}
 	// datatype constructor: mk_Name(...) or CaseName(...)
 	for _, dn := range fc.Sorts.dtOrder {
@@ -838,6 +863,31 @@ func (fc *FuncCtx) evalPure(e ast.Expr, st *St) Term {
 				return fc.spec(con.Returns, n)
 			}
 			_ = fv
+			if ref != nil && ref.Decl.Body != nil && len(ref.Decl.Body.List) == 1 && fc.pureDepth < 12 {
+				if rs, ok := ref.Decl.Body.List[0].(*ast.ReturnStmt); ok && len(rs.Results) == 1 {
+					// the callee's body is a single return expression: evaluate it (real code, inlined)
+					work := st.clone()
+					for i, id := range formalObjs(ref) {
+						if id == nil || i >= len(args) {
+							continue
+						}
+						if obj := ref.Pkg.TypesInfo.Defs[id]; obj != nil {
+							work.vars[obj] = args[i]
+						}
+					}
+					saveTs := fc.tsubst
+					if ts := fc.tsubstFor(x, fn); ts != nil {
+						fc.tsubst = ts
+					}
+					fc.infoStack = append(fc.infoStack, ref.Pkg.TypesInfo)
+					fc.pureDepth++
+					r := fc.evalPure(rs.Results[0], work)
+					fc.pureDepth--
+					fc.infoStack = fc.infoStack[:len(fc.infoStack)-1]
+					fc.tsubst = saveTs
+					return r
+				}
+			}
 			return fc.specFail("call of " + key + " inside a spec-level function literal needs a functional contract")
 		}
 		f := fc.eval(x.Fun, st)
